@@ -1,6 +1,8 @@
 import KalignModel.Driver.Util
 import KalignModel.Driver.Weave
 import KalignModel.Driver.Param
+import KalignModel.Driver.Dp
+import KalignModel.Driver.Io
 /-!
 Line-protocol driver: one operation per input line, one result line per operation.
 Only executable model definitions are imported here (no `Props`, no Mathlib), so a failing proof
@@ -8,7 +10,7 @@ never prevents the model from running.  Each slice of the model contributes an `
 -/
 namespace Kalign.Driver
 
-def tables : OpTable := weaveOps ++ paramOps
+def tables : OpTable := weaveOps ++ paramOps ++ dpOps ++ ioOps
 
 def step (line : String) : String :=
   match (line.trimAscii.toString.splitOn " ").filter (· ≠ "") with
